@@ -688,8 +688,10 @@ def evaluate_smt_formula(
     if not isinstance(formula, SMTFormula):
         return Nothing
 
-    if formula.free_variables().difference(assignments) or any(
-        tree.is_open() for tree in formula.substitutions.values()
+    if (
+        formula.free_variables().difference(assignments)
+        or any(tree.is_open() for tree in formula.substitutions.values())
+        or any(assignments[var][1].is_open() for var in formula.free_variables())
     ):
         return Some(ThreeValuedTruth.unknown())
 
